@@ -27,6 +27,12 @@ def pick(a, which='first', other=None, flag=False):
     return a if which == 'first' and not flag else (other if other is not None else a * 0)
 def twice(a):
     return a * 2
+import types as _types
+lib = _types.SimpleNamespace(
+    stats=_types.SimpleNamespace(zs=lambda a: a * 5),
+    util=_types.SimpleNamespace(stats=_types.SimpleNamespace(zs=lambda a: a * 11)),
+    v1=_types.SimpleNamespace(stats=_types.SimpleNamespace(zs=lambda a: a * 3),
+                              util=_types.SimpleNamespace(stats=_types.SimpleNamespace(zs=lambda a: a * 7))))
 def wsum(a, w=0, z=0):
     # keyword labels that are also column names: wsum(x, w=w) passes the COLUMN w
     return a + 2 * w + 3 * z
@@ -70,7 +76,15 @@ def _tree(rng, depth, numeric=True):
         n = 2 if rng.random() < 0.15 else 1
         return ast.Compare(_tree(rng, depth - 1), [rng.choice(CMPOPS)() for _ in range(n)],
                            [_tree(rng, depth - 1) for _ in range(n)])
-    fn = rng.choice(["add3", "pick", "twice", "tcode", "slen", "wsum"])
+    fn = rng.choice(["add3", "pick", "twice", "tcode", "slen", "wsum", "lib"])
+    if fn == "lib":
+        # dotted callees of three, four and five parts; the objects on the way have look-alike siblings
+        path = rng.choice([["lib", "stats", "zs"], ["lib", "v1", "stats", "zs"], ["lib", "v1", "util", "stats", "zs"],
+                           ["lib", "util", "stats", "zs"]])
+        node = ast.Name(path[0], ast.Load())
+        for part in path[1:]:
+            node = ast.Attribute(node, part, ast.Load())
+        return ast.Call(node, [_tree(rng, depth - 1)], [])
     if fn == "wsum":
         kws = []
         if rng.random() < 0.8:
@@ -172,13 +186,13 @@ def _formula(c, src=None):
 def _extra():
     ns = {}
     exec(USER, ns)
-    return {k: v for k, v in ns.items() if k in ("add3", "pick", "twice", "tcode", "slen", "wsum")}
+    return {k: v for k, v in ns.items() if k in ("add3", "pick", "twice", "tcode", "slen", "wsum", "lib")}
 
 
 def model_cmd(c):
     import core
     return core.sshow(["c12", _formula(c), dm.frame_sexp(c["frame"]), "drop",
-                       [["add3", ["opaque"]], ["pick", ["opaque"]], ["twice", ["opaque"]], ["tcode", ["opaque"]], ["slen", ["opaque"]], ["wsum", ["opaque"]]]])
+                       [["add3", ["opaque"]], ["pick", ["opaque"]], ["twice", ["opaque"]], ["tcode", ["opaque"]], ["slen", ["opaque"]], ["wsum", ["opaque"]], ["lib", ["opaque"]]]])
 
 
 def impl_obs(c):
@@ -205,6 +219,8 @@ def compare(c, mo, obs):
         return f"{_formula(c)!r}: term names model {mn[1][1]} implementation {obs[1][1]}"
     if mv[0] == "err" and mv[1] == "Unsupported":
         return None
+    if "lib." in c["expr"] and mv[0] == "err":
+        return None  # the model has no user objects with attributes: the value of such a call is the oracle's business
     if mv[0] != obs[2][0]:
         return f"{_formula(c)!r}: evaluation model {mv[:2]} implementation {obs[2][:3]}"[:300]
     if mv[0] == "ok":
